@@ -40,6 +40,8 @@ type Cond struct {
 	Lang string `json:"lang,omitempty"`
 	// And: optional second conjunct.
 	And *Cond `json:"and,omitempty"`
+	// Text: Kind "text" = this expression text as it is (expr language)
+	Text string `json:"text,omitempty"`
 }
 
 // EventDef describes an event definition on a catch/throw/start/boundary event.
@@ -214,6 +216,8 @@ func condExpr(c *Cond, lang string) string {
 		s = fmt.Sprintf("getDataObject('%s').v %s %d", c.Var, c.Op, c.Val)
 	case "informal":
 		s = "whatever the analyst wrote"
+	case "text":
+		s = c.Text
 	}
 	return xmlEscape(s) + andPart(c, lang, xp)
 }
